@@ -9,6 +9,7 @@ removes every fd it still had registered.  The table itself is compared with the
 import Verif.Inv.Kernel
 import Verif.Model.Loop
 import Verif.Inv.GhostFree
+import Verif.Inv.RegOk
 
 namespace Verif.Props.C16
 open Verif.Kernel Verif.Loop
@@ -114,5 +115,36 @@ def ghostHistory : List Verif.Loop.Op :=
 
 example : (Verif.Loop.run ghostHistory).aborted = false ∧
     ((Verif.Loop.run ghostHistory).k.ep.map (·.fd)) = [1000, 1001, 7] := by decide +kernel
+
+
+/-- **After every history** not aborted by a panic and in which no source object was created over an fd that an earlier
+    object watches or watched (ghost flag `fdClash`: two sources over one fd is the situation of finding F15; re-use of
+    an fd after release is outside this theorem, `released_fd_not_registered` covers the release side): every sub-source
+    of a source object that has not been dropped and that holds a registration token is in the kernel's poller table
+    under exactly that token — failed registrations with or without roll-back, failed unregistrations, one-shot
+    disarming, removal from inside callbacks included.  With `no_ghost_registration`: the table and the loop's own
+    bookkeeping agree in both directions. -/
+theorem registered_is_in_the_table (ops : List Verif.Loop.Op) (hab : (Verif.Loop.run ops).aborted = false)
+    (hfc : (Verif.Loop.run ops).fdClash = false) (k : Nat) (src : Verif.Loop.Src) (g : Verif.Loop.Gen) (t : Verif.Token.Tok)
+    (hk : Verif.Loop.alookup (Verif.Loop.run ops).srcs k = some src) (hd : src.dropped = false)
+    (hg : g ∈ src.gens) (ht : g.token = some t) :
+    ∃ e ∈ (Verif.Loop.run ops).k.ep, e.fd = g.fd ∧ e.key = t :=
+  Verif.Inv.RegOk.registered_is_in_the_table ops hab hfc k src g t hk hd hg ht
+
+/-- non-vacuity: a composite source whose third registration fails without roll-back (two sub-sources stay registered),
+    a ping source, a one-shot generic source that fires and is re-armed by `update`, a source disabled and enabled -/
+def registeredHistory : List Verif.Loop.Op :=
+  [.c (.newCustom 1 3 false), .c (.plan 1 { regFail := some 2, rollback := false }), .c (.insert 1),
+   .c (.newPing 2), .c (.insert 2), .c (.disable 2), .c (.enable 2),
+   .c (.fd 7), .c (.newGen 3 7 true false .oneshot), .c (.insertd 3), .c (.write 7 1), .dispatch, .c (.update 3), .dispatch]
+
+def tokensHeld (s : Verif.Loop.St) : Nat :=
+  (s.srcs.map fun p => if p.2.dropped then 0 else (p.2.gens.filter (·.token.isSome)).length).foldl (· + ·) 0
+
+example : (Verif.Loop.run registeredHistory).aborted = false ∧ (Verif.Loop.run registeredHistory).fdClash = false ∧
+    tokensHeld (Verif.Loop.run registeredHistory) = 4 ∧ (Verif.Loop.run registeredHistory).k.ep.length = 4 := by decide +kernel
+
+/-- why the hypothesis is there: the second of two sources over one fd raises the flag -/
+example : (Verif.Loop.run ghostHistory).fdClash = true := by decide +kernel
 
 end Verif.Props.C16
